@@ -61,12 +61,43 @@ def sh(cmd, timeout, cwd=ROOT, log=None):
     return p.returncode, p.stdout
 
 
+def tree_hash(seed):
+    """content hash of everything the translators read: the repository's package source, the translators, the seed"""
+    h = hashlib.sha256(str(seed).encode())
+    roots = [os.path.join(REPO, "src", "vector"), os.path.join(ROOT, "tools", "vtrace")]
+    files = [os.path.join(ROOT, "tools", "gen.py")]
+    for r in roots:
+        for d, _, fs in os.walk(r):
+            files += [os.path.join(d, f) for f in fs if f.endswith(".py")]
+    for f in sorted(files):
+        h.update(f.encode())
+        with open(f, "rb") as fh:
+            h.update(hashlib.sha256(fh.read()).digest())
+    return h.hexdigest()
+
+
 def regen(ctx):
+    """regenerate the model from the working tree; skipped only when the content hash of every input equals the one of
+    the generation whose outputs are on disk (same result, byte for byte: the translators are deterministic)"""
+    stamp = os.path.join(BUILD, "gen.stamp.json")
+    th = tree_hash(ctx.seed)
+    gen_dir = os.path.join(COQ, "gen")
     try:
-        rc, out = sh([PY, "-m", "tools.gen"], 900, log=os.path.join(BUILD, "logs", "gen.log"))
-    except subprocess.TimeoutExpired:
-        ctx.broke("translator", "tools.gen", "timeout")
-        return False
+        st = json.load(open(stamp))
+        if st.get("hash") == th and st.get("rc") == 0 and all(os.path.exists(os.path.join(gen_dir, f)) for f in st.get("files", [])) \
+                and os.path.exists(os.path.join(BUILD, "nbapi.json")) and os.path.exists(os.path.join(BUILD, "objapi.json")):
+            rc, out = 0, st["out"]
+            ctx.coverage["regeneration"] = "inputs unchanged (sha256 of src/vector, translators, seed): outputs of the previous regeneration reused"
+        else:
+            raise ValueError
+    except (OSError, ValueError, KeyError):
+        try:
+            rc, out = sh([PY, "-m", "tools.gen"], 900, log=os.path.join(BUILD, "logs", "gen.log"))
+        except subprocess.TimeoutExpired:
+            ctx.broke("translator", "tools.gen", "timeout")
+            return False
+        if tree_hash(ctx.seed) == th:
+            json.dump({"hash": th, "rc": rc, "out": out, "files": sorted(os.listdir(gen_dir)) if os.path.isdir(gen_dir) else []}, open(stamp, "w"))
     for line in out.splitlines():
         if line.startswith("{"):
             try:
